@@ -1,6 +1,7 @@
 mod common;
 mod obs;
 mod props;
+mod uexpr;
 mod units;
 
 use common::Tier;
